@@ -330,6 +330,70 @@ func (f *fakeDP) Load() (map[int]int, error) {
 }
 func (f *fakeDP) ErrIsNotExists(err error) bool { return err == errNotExist }
 
+// fakeDPB additionally implements cachingmap.DataplaneBatchedMap, which makes CachingMap take the IterBatched path.
+type fakeDPB struct {
+	*fakeDP
+	partial        bool
+	callsU, callsD []string
+	shownU, shownD [][]kv
+}
+
+func (f *fakeDPB) BatchUpdate(ks, vs []int) (int, error) {
+	n, code := 0, 0
+	b := make([]kv, len(ks))
+	for i := range ks {
+		b[i] = kv{ks[i], vs[i]}
+	}
+	for i := range ks {
+		if f.failUpd[ks[i]] {
+			code = 1
+			break
+		}
+		if f.partial && n >= 1 && i%2 == 1 {
+			break // short write without an error
+		}
+		f.m[ks[i]] = vs[i]
+		n++
+	}
+	f.shownU = append(f.shownU, b)
+	f.callsU = append(f.callsU, fmt.Sprintf("(%s,(%d%%nat,%d))", kvsCoq(b), n, code))
+	if code == 1 {
+		return n, errFail
+	}
+	return n, nil
+}
+func (f *fakeDPB) BatchDelete(ks []int) (int, error) {
+	n, code := 0, 0
+	b := make([]kv, len(ks))
+	for i := range ks {
+		b[i] = kv{ks[i], 0}
+	}
+	for i := range ks {
+		if f.failDel[ks[i]] {
+			code = 1
+			break
+		}
+		if _, ok := f.m[ks[i]]; !ok {
+			code = 2
+			break
+		}
+		if f.partial && n >= 1 && i%2 == 1 {
+			break
+		}
+		delete(f.m, ks[i])
+		n++
+	}
+	f.shownD = append(f.shownD, b)
+	f.callsD = append(f.callsD, fmt.Sprintf("(%s,(%d%%nat,%d))", kvsCoq(b), n, code))
+	switch code {
+	case 1:
+		return n, errFail
+	case 2:
+		return n, errNotExist
+	}
+	return n, nil
+}
+
 func nerrOf(err error) int {
 	if err == nil {
 		return 0
@@ -537,7 +601,15 @@ func bigCase(r *rng, o *out, univ []int) (string, bool) {
 // cacheCase: the real CachingMap[int,int] over fakeDP.
 func cacheCase(r *rng, o *out, univ []int) bool {
 	f := &fakeDP{m: map[int]int{}}
-	cm := cachingmap.New[int, int]("verif", f)
+	batched := r.intn(2) == 0
+	fb := &fakeDPB{fakeDP: f}
+	var cm *cachingmap.CachingMap[int, int]
+	if batched {
+		o.tags["cache:batched-map"] = true
+		cm = cachingmap.New[int, int]("verif", fb)
+	} else {
+		cm = cachingmap.New[int, int]("verif", f)
+	}
 	tr := cm.VerifTracker()
 	view := &mapT{des: tr.Desired(), dp: tr.Dataplane(), pu: tr.PendingUpdates(), pd: tr.PendingDeletions()}
 	nk := 2 + r.intn(nKeys-1)
@@ -546,6 +618,8 @@ func cacheCase(r *rng, o *out, univ []int) bool {
 	inject := func() {
 		f.failUpd, f.failDel, f.failLoad = map[int]bool{}, map[int]bool{}, false
 		f.upd, f.del = nil, nil
+		fb.callsU, fb.callsD, fb.shownU, fb.shownD = nil, nil, nil, nil
+		fb.partial = r.intn(4) == 0
 		if r.intn(2) == 0 {
 			for k := 0; k < nk; k++ {
 				if r.intn(4) == 0 {
@@ -589,14 +663,23 @@ func cacheCase(r *rng, o *out, univ []int) bool {
 			inject()
 			nerr = nerrOf(cm.ApplyUpdatesOnly())
 			op = fmt.Sprintf("CUpd %v [%s]", f.failLoad, strings.Join(f.upd, ";"))
+			if batched {
+				op = fmt.Sprintf("CUpdB %v [%s]", f.failLoad, strings.Join(fb.callsU, ";"))
+			}
 		case c < 86:
 			inject()
 			nerr = nerrOf(cm.ApplyDeletionsOnly())
 			op = fmt.Sprintf("CDel %v [%s]", f.failLoad, strings.Join(f.del, ";"))
+			if batched {
+				op = fmt.Sprintf("CDelB %v [%s]", f.failLoad, strings.Join(fb.callsD, ";"))
+			}
 		default:
 			inject()
 			nerr = nerrOf(cm.ApplyAllChanges())
 			op = fmt.Sprintf("CAll %v [%s] [%s]", f.failLoad, strings.Join(f.del, ";"), strings.Join(f.upd, ";"))
+			if batched {
+				op = fmt.Sprintf("CAllB %v [%s] [%s]", f.failLoad, strings.Join(fb.callsD, ";"), strings.Join(fb.callsU, ";"))
+			}
 			if nerr == 0 {
 				sawApplyOK = true
 				o.tags["apply-all-ok"] = true
@@ -610,6 +693,9 @@ func cacheCase(r *rng, o *out, univ []int) bool {
 		}
 		d := view.Dump(univ)
 		d.nerr = nerr
+		if batched && (strings.HasPrefix(op, "CUpdB") || strings.HasPrefix(op, "CDelB") || strings.HasPrefix(op, "CAllB")) {
+			d.calls = append(append([][]kv{}, fb.shownD...), fb.shownU...)
+		}
 		for kk, vv := range f.m {
 			d.real = append(d.real, kv{kk, vv})
 		}
